@@ -61,6 +61,9 @@ def shapes():
     out.append([s1.seg([[A, 'full', 0x08000c, 2], [B, 'full', 9, 2]], 2, big=True)])
     # strings, several chunks of equal byte size
     out.append([s1.seg([[A, 'full', 0x20, 2], [B, 'full', 3, 1]], 2), s1.seg([[A, 'full', 0x20, 1]], 1)])
+    # the same channels re-listed in a different order with different lengths (index cache keyed by the ordered list)
+    out.append([s1.seg([[A, 'full', 3, 2], [B, 'full', 2, 1]], 1), s1.seg([[B, 'full', 2, 3], [A, 'full', 3, 1]], 2),
+                s1.seg([[A, 'full', 3, 2], [B, 'full', 2, 1]], 1), s1.seg([[A, 'full', 3, 2], [B, 'full', 2, 1]], 2)])
     # timestamps interleaved with int64
     out.append([s1.seg([[A, 'full', 0x44, 2], [B, 'full', 4, 2]], 2, inter=True)])
     return out
